@@ -178,5 +178,62 @@ def run_real(case, G, lattice_rng):
     order = sorted(range(len(ws)), key=lambda j: (ws[j], j))
     ev["asc"] = [j + 1 for j in order]
     weights_and_dos(np.array([ws[j] for j in order], dtype="double"), "asc")
+    # the DOS classes on the same case: TotalDos / ProjectedDos driven with a stand-in mesh object that
+    # carries exactly the attributes they read; the relative grid addresses they hand to the kernel are
+    # recorded by wrapping the module-level run_tetrahedron_method_dos
+    ev.update(run_dos_classes(case, cell, freqs, grid_address, mapping, ir, ws, coef, flags))
     ev["exact"] = bool(all(flags))
     return ev
+
+
+class _Recorder:
+    """wraps phonopy.phonon.dos.run_tetrahedron_method_dos: records the relative grid addresses per call"""
+
+    def __init__(self):
+        import phonopy.phonon.dos as dosmod
+        self.mod = dosmod
+        self.orig = dosmod.run_tetrahedron_method_dos
+        self.calls = []
+
+    def __enter__(self):
+        def wrapped(mesh, frequency_points, frequencies, grid_address, grid_mapping_table, relative_grid_address,
+                    coef=None):
+            self.calls.append(dict(projected=coef is not None, rel=np.array(relative_grid_address).copy()))
+            return self.orig(mesh, frequency_points, frequencies, grid_address, grid_mapping_table,
+                             relative_grid_address, coef=coef)
+        self.mod.run_tetrahedron_method_dos = wrapped
+        return self
+
+    def __exit__(self, *a):
+        self.mod.run_tetrahedron_method_dos = self.orig
+
+
+def run_dos_classes(case, cell, freqs, grid_address, mapping, ir, ws, coef, flags):
+    from types import SimpleNamespace
+    from phonopy.phonon.dos import TotalDos, ProjectedDos
+
+    mesh = np.array(case["mesh"], dtype="int64")
+    mult = np.array([int(np.sum(mapping == g)) for g in ir], dtype="int64")
+    csum = float(coef[0, :, 0].sum())
+    # |e|^2 = coef / csum (xyz projection takes |eigenvectors|^2 as it is: shape (n_ir, n_proj, n_band))
+    eig = np.sqrt(coef / csum)
+    mo = SimpleNamespace(frequencies=freqs, weights=mult, eigenvectors=eig, mesh_numbers=mesh,
+                         grid_address=grid_address, grid_mapping_table=mapping, ir_grid_points=ir,
+                         dynamical_matrix=SimpleNamespace(primitive=cell), with_eigenvectors=True)
+    out = {}
+    with _Recorder() as rec:
+        td = TotalDos(mo, use_tetrahedron_method=True)
+        td._frequency_points = np.array(ws, dtype="double")   # the frequency list of the case, in its order
+        td.run()
+        pd = ProjectedDos(mo, use_tetrahedron_method=True, xyz_projection=True)
+        pd._frequency_points = np.array(ws, dtype="double")
+        pd.run()
+    tot = [c for c in rec.calls if not c["projected"]]
+    prj = [c for c in rec.calls if c["projected"]]
+    if len(tot) != 1 or len(prj) != 1:
+        raise RuntimeError("DOS classes did not call the tetrahedron kernel once each: %d, %d" % (len(tot), len(prj)))
+    out["tabT"] = table_rows(tot[0]["rel"], [0] * 24)
+    out["tabP"] = table_rows(prj[0]["rel"], [0] * 24)
+    full = np.concatenate([np.array(pd.projected_dos).T * csum, np.array(td.dos)[:, None]], axis=1)
+    out["dosCls"] = dict(I=rat_tree(full, flags))
+    return out
